@@ -862,11 +862,17 @@ class FieldValueMimeType(FieldValueComponentBase):
     def _parse(cls, parsable):
         parser = ParserText(parsable)
 
-        parser.parse_string_until_separator('registry', '/', item_class=MimeTypeRegistry)
+        parser.parse_string_until_separator('registry', '/')
         parser.parse_separator('/')
         parser.parse_string_by_length('type', parser.unparsed_length)
 
-        return FieldValueMimeType(**parser), parser.parsed_length
+        # RFC 9110 8.3.1: the type and subtype tokens are case-insensitive
+        try:
+            registry = MimeTypeRegistry(parser['registry'].lower())
+        except ValueError as e:
+            six.raise_from(InvalidValue(parser['registry'], cls, 'registry'), e)
+
+        return FieldValueMimeType(type=parser['type'].lower(), registry=registry), parser.parsed_length
 
     def compose(self):
         composer = ComposerText()
